@@ -1,9 +1,12 @@
 package osutil
 
 import (
+	"errors"
 	"io"
 	"os"
 )
+
+var errSameFile = errors.New("source and destination are the same file")
 
 const (
 	DefaultFileMode os.FileMode = 0644
@@ -18,6 +21,14 @@ func CopyFile(srcPath, destPath string) (int64, error) {
 		return 0, err
 	}
 	defer src.Close()
+
+	// os.Create truncates: if destPath is the source itself (same path, another
+	// spelling, a symbolic or hard link) the content would be lost before it is read.
+	if srcInfo, err := src.Stat(); err != nil {
+		return 0, err
+	} else if destInfo, err := os.Stat(destPath); err == nil && os.SameFile(srcInfo, destInfo) {
+		return 0, &os.PathError{Op: "copy", Path: destPath, Err: errSameFile}
+	}
 
 	dest, err := os.Create(destPath)
 	if err != nil {
